@@ -13,6 +13,7 @@ package simsync
 
 import (
 	"bytes"
+	"fmt"
 	"reflect"
 	"sync"
 	"sync/atomic"
@@ -252,4 +253,75 @@ func (a *AtomicBool) Swap(v bool) bool { yieldPoint("atomic.Swap"); return a.v.S
 func (a *AtomicBool) CompareAndSwap(old, new bool) bool {
 	yieldPoint("atomic.CompareAndSwap")
 	return a.v.CompareAndSwap(old, new)
+}
+
+// ---------------------------------------------------------------- sync.Map
+
+// Map stands in for sync.Map in the scratch copy. The single-key operations are one decision point of
+// the scheduler followed by the real operation. Range is what sync.Map documents and no more: it "does
+// not necessarily correspond to any consistent snapshot"; each key is visited at most once and its value
+// is whatever the map holds at the moment of the visit. Here the visits are separate decision points
+// (other tasks may run between two of them), keys are visited in the order of their printed form -
+// ascending on a Map's odd-numbered Range calls, descending on the even-numbered ones - and a key that
+// appears behind the cursor while the walk is under way is missed, one that appears ahead of it is seen.
+// Both are outcomes the real sync.Map produces under free-running concurrency; this makes them replayable.
+type Map struct {
+	m      sync.Map
+	ranges atomic.Int64
+}
+
+func (m *Map) Load(key any) (any, bool) { yieldPoint("Map.Load"); return m.m.Load(key) }
+func (m *Map) Store(key, value any)     { yieldPoint("Map.Store"); m.m.Store(key, value) }
+func (m *Map) Delete(key any)           { yieldPoint("Map.Delete"); m.m.Delete(key) }
+func (m *Map) Clear()                   { yieldPoint("Map.Clear"); m.m.Clear() }
+func (m *Map) LoadOrStore(key, value any) (any, bool) {
+	yieldPoint("Map.LoadOrStore")
+	return m.m.LoadOrStore(key, value)
+}
+func (m *Map) LoadAndDelete(key any) (any, bool) {
+	yieldPoint("Map.LoadAndDelete")
+	return m.m.LoadAndDelete(key)
+}
+func (m *Map) Swap(key, value any) (any, bool) { yieldPoint("Map.Swap"); return m.m.Swap(key, value) }
+func (m *Map) CompareAndSwap(key, old, new any) bool {
+	yieldPoint("Map.CompareAndSwap")
+	return m.m.CompareAndSwap(key, old, new)
+}
+func (m *Map) CompareAndDelete(key, old any) bool {
+	yieldPoint("Map.CompareAndDelete")
+	return m.m.CompareAndDelete(key, old)
+}
+
+func (m *Map) Range(f func(key, value any) bool) {
+	if H == nil {
+		m.m.Range(f)
+		return
+	}
+	down := m.ranges.Add(1)%2 == 0
+	started, cursor := false, ""
+	for {
+		yieldPoint("Map.Range")
+		// the live key next after the cursor, in this walk's direction
+		var next any
+		nextName, found := "", false
+		m.m.Range(func(k, _ any) bool {
+			name := fmt.Sprint(k)
+			if started && ((!down && name <= cursor) || (down && name >= cursor)) {
+				return true
+			}
+			if !found || (!down && name < nextName) || (down && name > nextName) {
+				next, nextName, found = k, name, true
+			}
+			return true
+		})
+		if !found {
+			return
+		}
+		started, cursor = true, nextName
+		if v, ok := m.m.Load(next); ok {
+			if !f(next, v) {
+				return
+			}
+		}
+	}
 }
